@@ -209,7 +209,7 @@ Copy ==              \* copyClass(originFile, newFile) (+ the node of the copy, 
          ELSE /\ disk' = [disk EXCEPT ![configPath] = Written(d, to, FileOn(d, from).lines)]
               /\ nodes' = IF CopyNode /\ \E x \in DOMAIN nodes : nodes[x].path = from
                           THEN LET o == nodes[CHOOSE x \in DOMAIN nodes : nodes[x].path = from]
-                               IN  Append(nodes, [o EXCEPT !.path = to])
+                               IN  Append(nodes, [o EXCEPT !.path = to, !.pkg = PkgOf(Mv.to)])
                           ELSE nodes
               /\ phase' = "pkg" /\ UNCHANGED panic
   /\ UNCHANGED <<projects, pi, pass, configPath, moveConfig, fi, mi, ni, before>>
@@ -222,7 +222,7 @@ NodeQName(nd) == nd.pkg \o "." \o (IF NameRule = "file" THEN BaseName(nd.path) E
 
 PkgInfo ==           \* updatePackageInfo: the search loop keeps the LAST matching node
   /\ phase = "pkg"
-  /\ LET hits == {x \in DOMAIN nodes : NodeQName(nodes[x]) = Mv.from /\ (~CopyNode \/ nodes[x].path = PathOfQ(Mv.from))}
+  /\ LET hits == {x \in DOMAIN nodes : NodeQName(nodes[x]) = Mv.from}
          to   == PathOfQ(Mv.to)
          d    == disk[configPath]
      IN  IF hits = {} \/ (NameRule = "last-decl" /\ nodes[CHOOSE x \in hits : \A y \in hits : y <= x].name = "")
@@ -269,7 +269,7 @@ Spec == Init /\ [][Next]_vars
 -----------------------------------------------------------------------------
 (* Properties *)
 
-Input == [projects |-> projects]
+Input == [via |-> "api", projects |-> projects]
 Observed == [panic |-> panic, projects |-> [n \in DOMAIN projects |-> [before |-> before[n], after |-> disk[n]]]]
 
 \* (1)-(4): the finished disks are what the Reference allows
